@@ -147,6 +147,36 @@ FIX_EXTRAS = {"enum": "    pub enum ZzUnrelated { A, B }\n", "struct": "    pub 
 
 
 
+SAME_BASE = """#[diplomat::bridge]
+mod alpha {
+    #[diplomat::opaque]
+    pub struct Handle(pub u8);
+    pub enum Kind { A, B }
+    pub struct Point { pub x: i32, pub y: i32 }
+    #[diplomat::opaque]
+    pub struct User(pub u8);
+    impl Handle { pub fn id(&self) -> u8 { self.0 } }
+    impl User {
+        pub fn new(h: &Handle, k: Kind) -> Box<User> { Box::new(User(h.0)) }
+        pub fn handle(&self) -> Box<Handle> { Box::new(Handle(self.0)) }
+        pub fn place(&self, p: Point) -> Point { p }
+        pub fn kind(&self) -> Kind { Kind::A }
+    }
+}
+"""
+SAME_EXTRA = """#[diplomat::bridge]
+#[diplomat::abi_rename = "beta_{0}"]
+#[diplomat::attr(*, rename = "Beta{0}")]
+mod beta {
+    #[diplomat::opaque]
+    pub struct Handle(pub u16);
+    pub enum Kind { X, Y, Z }
+    pub struct Point { pub lat: f64 }
+    impl Handle { pub fn wide(&self) -> u16 { self.0 } }
+}
+"""
+
+
 def permute(mods, rng):
     """a permutation that keeps impls after their type and the relative order of one type's impl blocks"""
     order = {"mods": list(range(len(mods))), "items": []}
@@ -227,6 +257,23 @@ def check(ctx, replay=None):
                     violate(f"direct:local:{b}", {"backend": b, "what": f"adding the unreferenced {tag.replace('early_', '')} {'Aa' if 'early' in tag else 'Zz'}Unrelated changes other types' files {dd[:5]}", "src": FIX_BASE % extra})
             shutil.rmtree(o1, ignore_errors=True)
         shutil.rmtree(o0, ignore_errors=True)
+    # the same Rust identifiers declared again in a second bridge module, kept apart by renames: nothing of the first module may change
+    # (a lookup table keyed by the bare identifier would make references resolve to the other module's types)
+    open(os.path.join(d, "same_base.rs"), "w").write(SAME_BASE)
+    open(os.path.join(d, "same_extra.rs"), "w").write(SAME_BASE + SAME_EXTRA)
+    for b in ("cpp", "js", "dart", "nanobind", "demo_gen"):
+        o0, o1 = os.path.join(d, f"same_{b}_base"), os.path.join(d, f"same_{b}_extra")
+        q0 = e2e.run_tool(b, os.path.join(d, "same_base.rs"), o0, config=CFG); q1 = e2e.run_tool(b, os.path.join(d, "same_extra.rs"), o1, config=CFG); runs += 2
+        if q0.returncode != 0 or q1.returncode != 0:
+            if (q0.returncode == 0) != (q1.returncode == 0):
+                violate(f"direct:accept:{b}", {"backend": b, "what": "adding a second bridge module that declares the same identifiers (renamed) changes whether the bridge is accepted",
+                                              "stderr": (q0.stderr + q1.stderr)[-600:], "src": SAME_BASE + SAME_EXTRA})
+            continue
+        dd = diff_dirs(o0, o1, ignore=lambda k: "Beta" in k or "beta" in os.path.basename(k) or INDEX_FILES.search(os.path.basename(k)) is not None)
+        if dd:
+            violate(f"direct:local:{b}", {"backend": b, "what": f"adding an unreferenced bridge module whose (renamed) types have the same Rust identifiers changes other types' files {dd[:5]}",
+                                         "src": SAME_BASE + SAME_EXTRA})
+        shutil.rmtree(o0, ignore_errors=True); shutil.rmtree(o1, ignore_errors=True)
     nsets = 2 if ctx.quick() else 12
     nperm = 3 if ctx.quick() else 10
     backends = BACKENDS
